@@ -147,7 +147,7 @@ let handle l =
       let rec split i acc l = if i = 0 then (List.rev acc, l) else (match l with x :: t -> split (i - 1) (x :: acc) t | [] -> failwith "coretshape") in
       let (pairs, doc) = split n [] rest in
       let d = dec_doc (make_reader doc) in
-      (if is_coret d then "" else "X") ^ string_of_int (int_of_n (coret_shape_tbl (parse_cls cls) nums holos d (List.map parse_pair pairs)))
+      (if in_coreth4_domain (parse_cls cls) d then "D" else if is_coret d then "" else "X") ^ string_of_int (int_of_n (coret_shape_tbl (parse_cls cls) nums holos d (List.map parse_pair pairs)))
   | "corezshape" :: cls :: np :: rest ->
       let n = int_of_string np in
       let rec split i acc l = if i = 0 then (List.rev acc, l) else (match l with x :: t -> split (i - 1) (x :: acc) t | [] -> failwith "corezshape") in
